@@ -28,6 +28,7 @@ var incidentKinds = []string{
 	"expiry-while-skipping-big-duplicate", // the broker stalls inside the payload of a retransmission that gets skipped
 	"expiry-while-skipping-unread-big",    // the same inside a big message the application did not read
 	"violation-inside-big-publish",        // a PUBLISH beyond the read buffer that is itself a protocol violation
+	"publish-during-resend",               // persisted publishes of both levels while the resend of a reconnect is under way
 }
 
 const c10Min, c10Max = 2 * time.Millisecond, 16 * time.Millisecond
@@ -40,7 +41,7 @@ func runIncidents(c *run.Ctx, kinds []string) {
 	ep.Cfg.ReconnectWaitMin, ep.Cfg.ReconnectWaitMax = c10Min, c10Max
 	ep.Cfg.AtLeastOnceMax, ep.Cfg.ExactlyOnceMax = 32, 32
 	// scripted decisions, set per incident
-	var failWriter, gateWriter, failAck, skipBig bool
+	var failWriter, gateWriter, failAck, skipBig, gateResend bool
 	var failDials, failHandshake, failResend, refuse int
 	parkAt := ""
 	w.Mu.Lock()
@@ -71,6 +72,9 @@ func runIncidents(c *run.Ctx, kinds []string) {
 		case failAck && isAck:
 			failAck = false
 			return sim.WriteDecision{Accept: w.Rng.Intn(len(p)), Then: "error"}
+		case gateResend && isResend:
+			gateResend = false
+			return sim.WriteDecision{Accept: w.Rng.Intn(len(p)), GateAfter: "resend"}
 		case failResend > 0 && isResend:
 			failResend--
 			return sim.WriteDecision{Accept: w.Rng.Intn(len(p)), Then: "error"}
@@ -107,6 +111,15 @@ func runIncidents(c *run.Ctx, kinds []string) {
 		}
 		return wire.Connack(b.State.Session && !p.Connect.CleanSession, 0)
 	}
+	// the answer to a subscribe on "c10/await/…" is withheld: the request sits
+	// on its connection, awaiting, when the incident strikes
+	awaitPolicy := func(b *sim.Broker, cn *sim.Conn, p *wire.Packet, reply []byte) string {
+		if p.Type == wire.SUBSCRIBE && len(p.Filters) > 0 && strings.HasPrefix(p.Filters[0], "c10/await/") {
+			return "hold"
+		}
+		return ""
+	}
+	w.Broker.AckPolicy = awaitPolicy
 	w.ReadPlan = func(cn *sim.Conn, avail int) sim.ReadDecision {
 		if avail == 0 {
 			if cn.ReadDeadlineArmed() && cn.MidPacket() {
@@ -218,7 +231,7 @@ func runIncidents(c *run.Ctx, kinds []string) {
 	if !awaitOnline("start") {
 		return
 	}
-	n := 0
+	n, awaited := 0, 0
 	prevKind := "start"
 	var pending []*sim.Call
 	for _, kind := range kinds {
@@ -241,6 +254,17 @@ func runIncidents(c *run.Ctx, kinds []string) {
 			}
 		}
 		set := func(f func()) { w.Mu.Lock(); f(); w.Mu.Unlock() }
+		if c.Rng.Intn(2) == 0 {
+			// a request that is out and awaits its answer on this connection
+			aw := d.Go("Subscribe", func() error { return d.C.Subscribe(nil, "c10/await/"+tag) })
+			w.Mu.Lock()
+			held0 := len(w.Broker.Held)
+			w.Mu.Unlock()
+			if w.WaitUntil(sim.StepTimeout, func() bool { return len(w.Broker.Held) > held0 || aw.Returned() }) && !aw.Returned() {
+				pending = append(pending, aw)
+				awaited++
+			}
+		}
 		switch kind {
 		case "writer-fails-while-reader-owes-ack", "writer-fails-while-reader-owes-pubrel":
 			if kind == "writer-fails-while-reader-owes-ack" {
@@ -265,7 +289,7 @@ func runIncidents(c *run.Ctx, kinds []string) {
 		case "writer-fails-while-reader-in-read", "writer-fails-after-reader-flushed":
 			if kind == "writer-fails-after-reader-flushed" {
 				w.Broker.Publish("in/"+tag, []byte("m"), 1, false)
-				w.WaitIdle(sim.StepTimeout)
+				w.WaitReaderQuiet(sim.StepTimeout)
 			}
 			set(func() { failWriter = true })
 			pending = append(pending, request())
@@ -347,14 +371,47 @@ func runIncidents(c *run.Ctx, kinds []string) {
 		case "refused":
 			set(func() { refuse = 1 + c.Rng.Intn(2) })
 			conn.EndInbound(-1, &netReset{})
+		case "publish-during-resend":
+			// a transfer of each level is pending; the connection goes; the resend of
+			// the first stalls on the new connection, and persisted publishes of both
+			// levels arrive meanwhile
+			set(func() {
+				w.Broker.AckPolicy = func(b *sim.Broker, cn *sim.Conn, p *wire.Packet, reply []byte) string { return "hold" }
+			})
+			d.Publish(1, false, 3)
+			d.Publish(2, false, 3)
+			w.WaitReaderQuiet(sim.StepTimeout)
+			set(func() { gateResend = true; w.Broker.AckPolicy = awaitPolicy })
+			conn.EndInbound(-1, io.EOF)
+			if !w.WaitGateWaiting("resend", 1, sim.StepTimeout) {
+				wedge("the resend never reached its gate")
+				return
+			}
+			done := make(chan struct{}, 2)
+			for _, lvl := range []int{2, 1} {
+				lvl := lvl
+				go func() { d.Publish(lvl, false, 3); done <- struct{}{} }()
+			}
+			// (they wait for the sequence locks of the resend, or not: either way)
+			w.WaitUntil(50*time.Millisecond, func() bool { return false })
+			w.Open("resend")
+			for i := 0; i < 2; i++ {
+				select {
+				case <-done:
+				case <-time.After(sim.StepTimeout):
+					wedge("a persisted publish issued during the resend never returned")
+					return
+				}
+			}
+			w.ResetGate("resend")
 		case "resend-fails":
 			set(func() {
 				w.Broker.AckPolicy = func(b *sim.Broker, cn *sim.Conn, p *wire.Packet, reply []byte) string { return "hold" }
 			})
 			d.Publish(1, false, 3)
 			d.Publish(2, false, 3)
-			w.WaitIdle(sim.StepTimeout)
-			set(func() { failResend = 1 + c.Rng.Intn(2); w.Broker.AckPolicy = nil })
+			w.WaitReaderQuiet(sim.StepTimeout)
+			set(func() { failResend = 1 + c.Rng.Intn(2); w.Broker.AckPolicy = awaitPolicy })
 			conn.EndInbound(-1, io.EOF)
 		}
 		// the failure is noticed: the connection gets closed, a new dial follows
@@ -412,6 +469,7 @@ func runIncidents(c *run.Ctx, kinds []string) {
 		c.Spoiled()
 	}
 	c.Count("incidents", len(kinds))
+	c.Count("requests_awaiting_an_answer_at_the_incident", awaited)
 	c.Count("connections", len(w.Conns))
 	c.Sample(map[string]any{"incidents": kinds, "connections": len(w.Conns)})
 }
@@ -480,7 +538,7 @@ func init() {
 			return 2100
 		},
 		ChunkSize:   25,
-		Rule:        "each case strings 1-5 incidents on one client with an always-calling read loop that waits on ReadBackoff (ReconnectWaitMin 2 ms, Max 16 ms). Incident kinds place a failure relative to the read routine with hook parking and connection gates: another goroutine's request write (Publish, Subscribe, Ping) fails while the read routine is parked right before its acknowledgement flush, parked between saving and writing a PUBREL, blocked in Read, or after it flushed; the read routine meets a protocol violation while a writer is stuck inside Write holding the connection; EOF, reset, expiry inside a packet, a protocol violation; the broker falls silent inside the payload of a message beyond the read buffer that is being skipped (a retransmitted exactly-once duplicate, or one the application chose not to read); the acknowledgement's own write fails; 1-5 consecutive dial failures (plain errors, errors that wrap context.Canceled or DeadlineExceeded, net.ErrClosed, unexpected EOF: none means the Client was closed); a PUBLISH beyond the read buffer that is itself a protocol violation; 1-3 handshakes cut; refusals; resend failures with transfers pending. Oracle after each incident: the failed connection gets closed, the Dialer is invoked again, every request pending on that connection returns, Online is released and a Ping succeeds; 'does not happen' is decided structurally (no event and identical goroutine stacks for the stability window) with the dump as witness. ReadBackoff: non-nil for every error but ErrClosed, idle duration (seen through verifNote) inside [Min, Max], equal to Max after refusals and to the documented doubling otherwise, channel never closed earlier than that duration. Non-trivial: every incident; distinct by incident kind sequence.",
+		Rule:        "each case strings 1-5 incidents on one client with an always-calling read loop that waits on ReadBackoff (ReconnectWaitMin 2 ms, Max 16 ms). Incident kinds place a failure relative to the read routine with hook parking and connection gates: another goroutine's request write (Publish, Subscribe, Ping) fails while the read routine is parked right before its acknowledgement flush, parked between saving and writing a PUBREL, blocked in Read, or after it flushed; the read routine meets a protocol violation while a writer is stuck inside Write holding the connection; EOF, reset, expiry inside a packet, a protocol violation; the broker falls silent inside the payload of a message beyond the read buffer that is being skipped (a retransmitted exactly-once duplicate, or one the application chose not to read); the acknowledgement's own write fails; 1-5 consecutive dial failures (plain errors, errors that wrap context.Canceled or DeadlineExceeded, net.ErrClosed, unexpected EOF: none means the Client was closed); a PUBLISH beyond the read buffer that is itself a protocol violation; 1-3 handshakes cut; refusals; resend failures with transfers pending; persisted publishes of both levels issued while the resend of a reconnect is stalled inside a write. Before every second incident a Subscribe is brought to the point where it awaits its (withheld) answer on the connection. Oracle after each incident: the failed connection gets closed, the Dialer is invoked again, every request pending on that connection returns, Online is released and a Ping succeeds; 'does not happen' is decided structurally (no event and identical goroutine stacks for the stability window) with the dump as witness. ReadBackoff: non-nil for every error but ErrClosed, idle duration (seen through verifNote) inside [Min, Max], equal to Max after refusals and to the documented doubling otherwise, channel never closed earlier than that duration. Non-trivial: every incident; distinct by incident kind sequence.",
 		Assumptions: []string{"the stability window is 1.5 s (75 periods of the client's only periodic timer) after an 8 s watchdog; a watchdog expiry with events still flowing is inconclusive", "real time is used to hold nothing; the early-close check of ReadBackoff is the one sound direction of a wall-clock comparison"},
 		Run: func(c *run.Ctx) {
 			n := 1 + c.Rng.Intn(5)
